@@ -1460,8 +1460,11 @@ def m_template(rng, refs, loop, tail_lv):
         k += 1
     if loop:
         items = ["p", "q"][: rng.randint(1, 2)]
+        if rng.random() < 0.3:
+            items = items[:1] + [""]       # the LAST element is blank: an element all the same, and gone after end_for like any other
         names = some(refs) + [M_LV]
-        rows.append({"row_id": "L", "type": "begin_for", "from": prev, "message_text": ";".join(items) + (";" if len(items) == 1 else ""), "loop_variable": M_LV})
+        rows.append({"row_id": "L", "type": "begin_for", "from": prev,
+                     "message_text": ";".join(items) + (";" if len(items) == 1 or items[-1] == "" else ""), "loop_variable": M_LV})
         body_text = text(k, names)
         rows.append({"row_id": f"r{k}", "type": "send_message", "from": "", "message_text": body_text})
         rows.append({"row_id": "", "type": "end_for"})
